@@ -325,7 +325,20 @@ def _renumbered(g, mg, perm_seed, viol):
         mol = Chem.AddHs(mg.mol)
         n = mol.GetNumAtoms()
         perm = list(range(n))
-        random.Random(perm_seed).shuffle(perm)  # new atom i is old atom perm[i]
+        prng = random.Random(perm_seed)
+        if perm_seed % 2:
+            prng.shuffle(perm)  # new atom i is old atom perm[i]
+        else:
+            # a renumbering that keeps the element at every index (atoms shuffled within their element): the sequence of
+            # atomic numbers is unchanged, everything else about the numbering is not
+            by_z = {}
+            for a in mol.GetAtoms():
+                by_z.setdefault(a.GetAtomicNum(), []).append(a.GetIdx())
+            for z, idxs in by_z.items():
+                sh = list(idxs)
+                prng.shuffle(sh)
+                for pos, old_i in zip(idxs, sh):
+                    perm[pos] = old_i
         rmol = Chem.RenumberAtoms(mol, perm)
         assigner = g.forcefield_helper.get_assignment_class(None, None)
         try:
